@@ -6,7 +6,7 @@ deflates them and hands the table raw -> stored back to the encoder, so that all
 uncompressBufSize field are computed by the encoder itself).  The real readers (harness c10) answer
 the queries; ORACLE = spec_answer on the content; MODEL = Model/BBIRead.v (+ ReadBed_C10.v) on the
 same bytes."""
-import os, struct, subprocess, tempfile, zlib
+import os, struct, subprocess, sys, tempfile, zlib
 from ..runner import Prop
 from .. import core
 from ..core import sx, parse_sx
@@ -91,7 +91,8 @@ class C10(Prop):
     ID = "C10"
     THEOREMS = ["C10_search_any_tree", "C10_search_any_tree_keyed", "C10_endianness", "C10_endianness_fields", "C10_sections",
                 "C10_sections_fixed_step", "C10_sections_var_step", "C10_zoom_block", "C10_bed_block", "C10_chrom_tree", "C10_reads_emit"]
-    NEED_BINS = True
+    # the CLI tools are run in the thorough tier only; quick never waits for their build
+    NEED_BINS = ("thorough" in sys.argv) or os.environ.get("VERIF_TIER") == "thorough"
     RULE = ("files emitted by the independent encoder over {little, big endian} x {zlib, raw} x {section types 1/2/3 mixed} x "
             "{chromosome tree: single leaf / uniform fan-out 2,3,5 / uneven / chains, key width slack} x {R-tree per index: single leaf / "
             "uniform fan-out 2,3,5,256 / uneven depth / single-child chains, node numbering scrambled} x {piece placement: canonical / "
@@ -313,7 +314,13 @@ class C10(Prop):
                     seen.add(key)
                     tab.append([raw, list(zlib.compress(key, cases[i][0][0][2] + 2))])
                 cases[i][0][3] = tab
-        return [(sx(c), tags) for c, tags in cases]
+        out = [(sx(c), tags) for c, tags in cases]
+        wf = core.run_model(self.ID, 4, [c for c, _ in out])
+        self.outside_wf = [c for (c, _), w in zip(out, wf) if w.strip() != "1"]
+        self.wf_total = len(out)
+        for (c, tags), w in zip(out, wf):
+            tags.append("wf_b" if w.strip() == "1" else "OUTSIDE-wf_b")
+        return out
 
     def gen(self, rng, tier):
         n = 300 if tier == "quick" else 6000
@@ -350,19 +357,18 @@ class C10(Prop):
     # ------------------------------------------------------------ extra: wf of every generated case; CLI tools
     def extra_checks(self, ctx):
         res = []
-        rng = __import__("random").Random(ctx["seed"] + 101)
         tier = ctx["tier"]
-        cases = self.finish([self.one(rng) for _ in range(40 if tier == "quick" else 400)])
-        lines = [c for c, _ in cases]
-        wf = core.run_model(self.ID, 4, lines)
-        bad = [l for l, w in zip(lines, wf) if w.strip() != "1"]
-        res.append(("stat", "generated cases meeting the theorems' hypothesis wf_b", f"{len(lines) - len(bad)}/{len(lines)}"))
+        bad = getattr(self, "outside_wf", [])
+        total = getattr(self, "wf_total", 0)
+        res.append(("stat", "generated cases meeting the theorems' hypothesis wf_b", f"{total - len(bad)}/{total}"))
         if bad:
             res.append(("nofail", "generator produced a case outside wf_b",
                         {"property": self.ID, "kind": "generator-outside-hypothesis", "case": bad[0],
-                         "theorem_or_correspondence": "every generated valid case must satisfy wf_b (the hypothesis of C10_reads_emit)"}))
+                         "theorem_or_correspondence": "every generated case must satisfy wf_b (the hypothesis of C10_reads_emit)"}))
         if tier == "thorough":
-            res += self.cli_checks(lines[:150])
+            rng = __import__("random").Random(ctx["seed"] + 101)
+            cases = self.finish([self.one(rng) for _ in range(150)])
+            res += self.cli_checks([c for c, _ in cases])
         return res
 
     def cli_checks(self, lines):
@@ -404,6 +410,18 @@ class C10(Prop):
                             got.append((fs[0], int(fs[1]), int(fs[2]), float(fs[3])))
                         else:
                             got.append((fs[0], int(fs[1]), int(fs[2]), fs[3] if len(fs) > 3 else ""))
+                if bigwig and p.returncode == 0:
+                    pi = subprocess.run([os.path.join(core.BINS_DIR, "bigwiginfo"), path, "--chroms", "--zooms"],
+                                        stdout=subprocess.PIPE, stderr=subprocess.STDOUT, timeout=60)
+                    nrun += 1
+                    txt = pi.stdout.decode(errors="replace")
+                    lay = c[0]
+                    want = ["version: %d" % lay[2], "isCompressed: %s" % ("yes" if lay[1] else "no"), "isSwapped: %d" % (1 if lay[0] else 0),
+                            "zoomLevels: %d" % len(content[5]), "chromCount: %d" % len(content[1])]
+                    want += ["\t%s %d %d" % (bytes(ch[0]).decode(), ch[1], ch[2]) for ch in content[1]]
+                    if pi.returncode != 0 or any(w not in txt.split("\n") for w in want):
+                        if bad is None:
+                            bad = (line, "bigwiginfo", txt[-600:], [l for l in txt.split("\n")][:12], want)
                 ok = p.returncode == 0 and len(got) == len(exp) and all(
                     g[:3] == e[:3] and (g[3] == e[3] or (bigwig and abs(g[3] - e[3]) <= 1e-6 * max(1.0, abs(e[3])))) for g, e in zip(got, exp))
                 if not ok and bad is None:
